@@ -1028,6 +1028,20 @@ class StrLabel(str):
     """A str subclass instance: equal to and hashing like the plain label."""
 
 
+class ShownLabel(str):
+    """A str subclass instance whose str()/repr()/format() give another text (a str-enum member does
+    that): still equal to and hashing like the plain label, which is what names it."""
+
+    def __str__(self):
+        return '<' + str.__str__(self) + '>'
+
+    def __repr__(self):
+        return 'ShownLabel.' + str.__str__(self).upper()
+
+    def __format__(self, spec):
+        return format('<' + str.__str__(self) + '>', spec)
+
+
 def argform(labels, rng, iterable_ok=True, ctx=None):
     """One of many equivalent representations of a collection of labels."""
     labels = list(labels)
@@ -1049,7 +1063,8 @@ def argform(labels, rng, iterable_ok=True, ctx=None):
     if k == 6:      # equal but distinct str objects
         return [(x + '\0')[:-1] if len(x) > 1 else x for x in labels]
     if k == 7:
-        return [StrLabel(x) for x in labels] + labels[:1]
+        cls = StrLabel if rng.random() < .5 else ShownLabel
+        return [cls(x) for x in labels] + labels[:1]
     if k == 8:
         return (x for x in list(labels))
     return iter(labels + labels[-1:])
